@@ -80,6 +80,13 @@ def deep_match(got, exp, path=""):
             yield from deep_match(g, e, "%s[%d]" % (path, i))
     elif isinstance(exp, _Skip):
         yield path + "/(not compared: %s)" % exp.why, True
+    elif isinstance(exp, InnerList):
+        ok = isinstance(got, InnerList) and got.name == exp.name
+        yield "%s/is-the-list-built-by-the-nested-loop" % path, ok
+        if ok:
+            yield "%s/nested-loop-runs-over-the-specified-bytes" % path, same_view(got.buf, exp.buf) if isinstance(exp.buf, tuple) else False
+            for k, v in exp.params.items():
+                yield from deep_match(got.params.get(k), v, "%s/nested-loop-parameter-%s" % (path, k))
     elif isinstance(exp, Call):
         ok = isinstance(got, CallRecord) and got.name == exp.name and len(got.args) == len(exp.args)
         yield "%s/is-the-result-of-%s" % (path, exp.name), ok
@@ -100,6 +107,14 @@ class Optional:
 
     def __init__(self, cond, value):
         self.cond, self.value = cond, value
+
+
+class InnerList:
+    """the list a nested loop builds: determined (by that loop's own step obligations and the schema lemma) by the
+    buffer it runs over and the values of the variables its body reads"""
+
+    def __init__(self, name, buf, **params):
+        self.name, self.buf, self.params = name, buf, params
 
 
 class Call:
@@ -162,7 +177,14 @@ class StepUnit(Unit):
         for name in self.callees:
             d = cls.__dict__[name]
             contracts[d.__func__ if isinstance(d, (classmethod, staticmethod)) else d] = _callee_contract(name, isinstance(d, classmethod))
-        return {"loop_hook": loops.make_hook(fn, self.loop, capture=True, head_assume=whole_descriptor), "for_hook": loops.make_for_hook(fn), "contracts": contracts}
+        return {"loop_hook": loops.make_hook(fn, self.loop, capture=True, head_assume=whole_descriptor, inner_contracts=self.inner_contracts()),
+                "for_hook": loops.make_for_hook(fn), "contracts": contracts}
+
+    def inner_contracts(self):
+        """{ordinal of a loop nested in this one: contract(frame, buffer name)}"""
+        return {}
+
+    check_extent = True  # False for a nested loop: what it is handed is the subject of the enclosing loop's step obligation
 
     def _loop_node(self):
         cls, fn, _ = self._fn()
@@ -189,6 +211,11 @@ class StepUnit(Unit):
     def whole_extra(self, view):
         """further conformance preconditions on the first descriptor of the loop-head buffer"""
         return []
+
+    def count(self, env):
+        """number of elements the standard specifies for this list (from the enclosing descriptor), or None when the
+        list simply fills its extent"""
+        return None
 
     bounded_unit = None  # the enumerated-count contract of the same decoder (natively evaluable)
 
@@ -236,10 +263,11 @@ class StepUnit(Unit):
         old, new, env, x0 = info["old"], info["new"], info["env"], info["x0"]
         # ---- extent (the state the real prefix produced, before havoc)
         n = a.data.n
-        first, end = self.extent(View(a.data), n)
         ok = isinstance(x0, V.SBuf) and x0.arr.eq(a.data.arr)
-        yield "C04", "extent:list-buffer-is-a-view-of-the-response", ok
-        if ok:
+        if self.check_extent:
+            first, end = self.extent(View(a.data), n)
+            yield "C04", "extent:list-buffer-is-a-view-of-the-response", ok
+        if ok and self.check_extent:
             # clamped to the data present: [min(first, n), min(end, n))
             import z3
 
@@ -249,6 +277,18 @@ class StepUnit(Unit):
             stop = z3.If(stop >= start, stop, start)
             yield "C04", "extent:list-length-is-the-reported-length (clamped to the data present)", V.SBool(V.to_intsort(V.buf_len(x0)) == stop - start)
             yield "C04", "extent:list-starts-after-the-header", V.SBool(z3.Or(V.to_intsort(V.buf_len(x0)) == 0, V.to_intsort(x0.off) == start))
+        # ---- exit: besides "buffer used up", the only admissible stop condition is an element count, and it must be
+        # the count the standard specifies for this list
+        limit = info.get("limit")
+        spec_count = self.count(env)
+        if limit is None:
+            yield "C04", "exit:loop-stops-only-when-the-buffer-is-used-up", spec_count is None
+        else:
+            yield "C04", "exit:loop-test-is-len(buffer)-and-len(list)<count", limit[0] == (self.acc if isinstance(self.acc, str) else "?") and limit[1] is not None
+            if limit[1] is not None and spec_count is not None:
+                yield "C04", "exit:element-count-limit-is-the-specified-count", V.compare("==", limit[1], spec_count)
+            elif spec_count is None:
+                yield "C04", "exit:no-element-count-is-specified-for-this-list", False
         # ---- step, under the conformance precondition: a whole descriptor is present
         view = View(old)
         exp, stride, need = self.item(view, env)
@@ -409,4 +449,62 @@ class Vpd83Step(StepUnit):
         return 4, be(dv, 2, 2) + 4
 
 
-UNITS = [register(u) for u in (GetLbaStatusStep(), PRInReadKeysStep(), ReportLunsStep(), ReportPriorityStep(), PRInFullStatusStep(), Vpd83Step())]
+class RtpgPortsStep(StepUnit):
+    """inner loop of REPORT TARGET PORT GROUPS: the target port descriptors of one group"""
+
+    name = "decode/ReportTargetPortGroups:ports:step"
+    bounded_unit = "decode/ReportTargetPortGroups"
+    header = 4
+    decoder = ("scsi_cdb_report_target_port_groups", "ReportTargetPortGroups", "unmarshall_datain")
+    loop = 1
+    acc = "_tp_descriptors"
+    check_extent = False
+
+    def item(self, view, env):
+        return {"relative_target_port_id": be(view, 2, 2)}, 4, 4
+
+    def count(self, env):
+        # TARGET PORT COUNT of the group descriptor the enclosing iteration decoded (byte 7 of it)
+        g = env.get("_tpgd")
+        return g.get("target_port_count") if isinstance(g, dict) else None
+
+
+class RtpgGroupsStep(StepUnit):
+    """outer loop of REPORT TARGET PORT GROUPS; the inner loop is replaced by its contract: it runs over the
+    TARGET PORT COUNT x 4 bytes that follow the 8-byte group descriptor and leaves the buffer after them"""
+
+    name = "decode/ReportTargetPortGroups:groups:step"
+    bounded_unit = "decode/ReportTargetPortGroups"
+    header = 4
+    decoder = ("scsi_cdb_report_target_port_groups", "ReportTargetPortGroups", "unmarshall_datain")
+    loop = 0
+    acc = "_tpg_descriptors"
+
+    def inner_contracts(self):
+        def ports(frame, bufname):
+            entry = frame.env[bufname]
+            count = frame.env["_tpgd"]["target_port_count"]
+            # (whole descriptor present: len(entry) >= 4 * count, assumed at the loop head)
+            frame.env["_tp_descriptors"] = InnerList("ports", entry, count=count)
+            frame.env[bufname] = frame.buf_slice(entry, V.arith("*", count, 4), None)
+
+        return {1: ports}
+
+    def item(self, view, env):
+        g = view.decode(D.RTPG_GROUP_DESCRIPTOR)
+        n = g["target_port_count"]
+        exp = dict(g, target_ports=InnerList("ports", view.sub(8, V.buf_len(view.buf) - 8), count=n))
+        return exp, 8 + 4 * n, 8 + 4 * n
+
+    def extent(self, dv, n):
+        # RETURN DATA LENGTH + 4, after the 4-byte length (and, in the extended format, the 4-byte extended header)
+        return _RtpgStart(dv), be(dv, 0, 4) + 4
+
+
+def _RtpgStart(dv):
+    # the extended header (FORMAT TYPE 001b in byte 4) is present when the returned data has room for it
+    ext = V.band(V.compare(">=", V.buf_len(dv.buf), 8), V.compare(">=", be(dv, 0, 4), 4), ((dv.at(4) >> 4) & 7) == 1)
+    return V.ite(ext, 8, 4)
+
+
+UNITS = [register(u) for u in (RtpgPortsStep(), RtpgGroupsStep(), GetLbaStatusStep(), PRInReadKeysStep(), ReportLunsStep(), ReportPriorityStep(), PRInFullStatusStep(), Vpd83Step())]
